@@ -460,6 +460,11 @@ func (g *TxnGen) genTxn(t *rapid.T, st State) []Op {
 			return ops
 		}
 	}
+	if g.Cfg.RefBias && rapid.IntRange(0, 5).Draw(t, "collapse") == 0 {
+		if ops := g.genCollapse(t, st); ops != nil {
+			return ops
+		}
+	}
 	if g.Cfg.RefBias && rapid.IntRange(0, 2).Draw(t, "composite") == 0 {
 		if ops := g.genAttach(t, st); ops != nil {
 			return ops
@@ -948,6 +953,95 @@ func (g *TxnGen) genChain(t *rapid.T, st State) []Op {
 	}
 	Label("generator", fmt.Sprintf("chain:%d-links", n))
 	return rapid.Permutation(ops).Draw(t, "chainorder")
+}
+
+// genCollapse lets go of rows that keep rows of non-root tables alive (delete of the referrer,
+// or an update that empties the referring column), so that the garbage collection at commit
+// may take several rounds, and in the same transaction changes another column of rows that
+// hold weak references: such a row receives the transaction's own change and, round after
+// round, the reference-driven ones.
+func (g *TxnGen) genCollapse(t *rapid.T, st State) []Op {
+	type cand struct {
+		tb   Table
+		uuid string
+		cols []Col // holders: strong reference columns with a value; watchers: the other mutable columns
+	}
+	var holders, watchers []cand
+	for _, tb := range g.S.Tables {
+		for _, u := range SortedUUIDs(st[tb.Name]) {
+			row := st[tb.Name][u]
+			var strong []Col
+			weak := false
+			weakCols := map[string]bool{}
+			for _, c := range tb.Cols {
+				for _, bt := range []*Base{&c.Key, c.Value} {
+					if bt == nil || bt.T != TUUID || bt.Ref == nil || bt.Ref.Table == "" || row[c.Name].Len() == 0 {
+						continue
+					}
+					if bt.Ref.Weak {
+						weak = true
+						weakCols[c.Name] = true
+					} else if !g.S.IsRoot(bt.Ref.Table) {
+						strong = append(strong, c)
+					}
+				}
+			}
+			if len(strong) > 0 {
+				holders = append(holders, cand{tb, u, strong})
+			}
+			if weak {
+				var others []Col
+				for _, c := range mutableCols(tb) {
+					if !weakCols[c.Name] {
+						others = append(others, c)
+					}
+				}
+				if len(others) > 0 {
+					watchers = append(watchers, cand{tb, u, others})
+				}
+			}
+		}
+	}
+	if len(holders) == 0 || len(watchers) == 0 {
+		return nil
+	}
+	pool := g.pool(st, nil, nil)
+	var ops []Op
+	used := map[string]bool{}
+	nh := rapid.IntRange(1, 2).Draw(t, "collapseholders")
+	for i := 0; i < nh; i++ {
+		h := holders[rapid.IntRange(0, len(holders)-1).Draw(t, "collapseholder")]
+		if used[h.uuid] {
+			continue
+		}
+		used[h.uuid] = true
+		where := []Cond{{Col: "_uuid", Fn: "==", Val: Scalar(UUID(h.uuid))}}
+		c := h.cols[rapid.IntRange(0, len(h.cols)-1).Draw(t, "collapsecol")]
+		if c.Min == 0 && !c.Immutable && rapid.Bool().Draw(t, "collapsebyupdate") {
+			empty := EmptySet()
+			if c.Shape() == ShMap {
+				empty = EmptyMap()
+			}
+			ops = append(ops, Op{Op: "update", Table: h.tb.Name, Where: where, Row: Row{c.Name: empty}})
+		} else {
+			ops = append(ops, Op{Op: "delete", Table: h.tb.Name, Where: where})
+		}
+	}
+	nw := rapid.IntRange(1, 3).Draw(t, "collapsewatchers")
+	for i := 0; i < nw; i++ {
+		w := watchers[rapid.IntRange(0, len(watchers)-1).Draw(t, "collapsewatcher")]
+		if used[w.uuid] {
+			continue
+		}
+		used[w.uuid] = true
+		c := w.cols[rapid.IntRange(0, len(w.cols)-1).Draw(t, "collapsetouch")]
+		ops = append(ops, Op{Op: "update", Table: w.tb.Name, Where: []Cond{{Col: "_uuid", Fn: "==", Val: Scalar(UUID(w.uuid))}}, Row: Row{c.Name: GenVal(t, c, pool)}})
+	}
+	if len(ops) < 2 {
+		return nil
+	}
+	Label("generator", "collapse:referrer-released+weak-holder-touched")
+	return rapid.Permutation(ops).Draw(t, "collapseorder")
 }
 
 // genBigMutate (Big mode) mutates or updates a set column that holds dozens of elements
